@@ -121,6 +121,9 @@ pub struct Stats {
     pub samples: Vec<Json>,
     pub violations: Vec<Violation>,
     pub max_depth: u64,
+    /// counts measured elsewhere (e.g. in worker processes) and added to the set sizes
+    pub states_extra: u64,
+    pub nontrivial_extra: u64,
 }
 
 impl Stats {
@@ -168,6 +171,8 @@ impl Stats {
         }
         self.violations.extend(o.violations);
         self.max_depth = self.max_depth.max(o.max_depth);
+        self.states_extra += o.states_extra;
+        self.nontrivial_extra += o.nontrivial_extra;
     }
 }
 
@@ -209,8 +214,8 @@ impl Report {
         self.sections.push(json!({
             "name": name,
             "evaluations": s.evaluations,
-            "states": s.states.len(),
-            "distinct_nontrivial": s.nontrivial.len(),
+            "states": s.states.len() as u64 + s.states_extra,
+            "distinct_nontrivial": s.nontrivial.len() as u64 + s.nontrivial_extra,
             "transitions": s.transitions,
             "traces": s.traces,
             "outcomes": s.outcomes,
@@ -222,7 +227,7 @@ impl Report {
             self.ctx.id,
             name,
             s.evaluations,
-            s.states.len(),
+            s.states.len() as u64 + s.states_extra,
             s.transitions,
             s.outcomes,
             s.violations.len()
@@ -268,10 +273,10 @@ impl Report {
         let st = &self.stats;
         let mut cov = Map::new();
         cov.insert("evaluations".into(), json!(st.evaluations));
-        cov.insert("distinct_nontrivial".into(), json!(st.nontrivial.len()));
+        cov.insert("distinct_nontrivial".into(), json!(st.nontrivial.len() as u64 + st.nontrivial_extra));
         cov.insert("rule".into(), json!(self.rule));
         cov.insert("samples".into(), Json::Array(st.samples.clone()));
-        cov.insert("states".into(), json!(st.states.len()));
+        cov.insert("states".into(), json!(st.states.len() as u64 + st.states_extra));
         cov.insert("transitions".into(), json!(st.transitions));
         cov.insert("traces_validated_against_impl".into(), json!(st.traces));
         cov.insert("exhaustive".into(), json!(self.exhaustive));
@@ -311,10 +316,10 @@ impl Report {
             self.ctx.id,
             self.ctx.tier.name(),
             st.evaluations,
-            st.states.len(),
+            st.states.len() as u64 + st.states_extra,
             st.transitions,
             st.traces,
-            st.nontrivial.len(),
+            st.nontrivial.len() as u64 + st.nontrivial_extra,
             st.outcomes,
             wall,
             self.exhaustive,
